@@ -43,7 +43,7 @@ ok = rc_with != 0 and rc_without == 0 and not missing
 meta = json.load(open(os.path.join(seed, "meta.json")))
 meta["verified_by_us"] = dict(demo_exit_with_change=rc_with, demo_exit_without_change=rc_without, demo_output_with_change=out_with,
                               pinned_tests_missing_with_change=missing, ok=ok,
-                              ran="demo.py with and without the change (git stash) in the scratch worktree; the 62 pinned baseline tests "
+                              ran="demo.py with and without the change (patch file applied / checkout, never git stash) in the scratch worktree; the 62 pinned baseline tests "
                                   "(BASELINE.json command, cd <worktree>, PYTHONPATH=<worktree>) with the change")
 print(json.dumps(meta["verified_by_us"], indent=1)[:1500])
 if ok:
